@@ -21,6 +21,21 @@ CLAIMED = {
               "shut-in (the property's per-step exemptions) are not in the action bodies."),
         technique="TLA+ input generator + inlining relation checked by TLC over traces of the real Schedule::applyAction",
     ),
+    "C01": dict(
+        category="model_checking",
+        text=("DeckSyntax.tla: input texts as files of lines of lexemes, their Meaning (records up to the slash across lines, comments and "
+              "text after the slash ignored, n*v / n* running on into following items, early record end, record counts by size class from "
+              "the committed DeckSchema.tla, INCLUDE files) and the layout rewrites of the property as actions with their side "
+              "conditions.  TLC checks that every composition of <= 2 rewrites keeps Meaning and generates rewrite chains by "
+              "simulation; every text is rendered to characters (blanks, tabs, indentation, awkward comment / trailing texts), parsed "
+              "by the real Parser (harness/deckparse) and its projected Deck compared with the Meaning TLC computed and, bit for bit "
+              "incl. defaulted flags and SI values, with the Deck of the base text."),
+        design_ref="DESIGN.md section 5, C01",
+        note=("Trusted: TLC; the renderer; DeckSchema.tla generated once from the shipped keyword definitions.  Grammar: 18 keywords over "
+              "the size classes fixed / sized by other keyword / slash-terminated / data array / raw-string / TITLE; shipped decks, "
+              "double-slash-terminated and table-collection keywords are not re-laid-out."),
+        technique="TLC model checking of the rewrite system + TLC-generated behaviours replayed into the real Parser with TLC's Meaning as oracle",
+    ),
     "C03": dict(
         category="model_checking",
         text=("Schedule.tla generates SCHEDULE inputs (blocks of abstract keywords with their prerequisites; TLC checks "
@@ -129,6 +144,18 @@ CLAIMED = {
         note=("Trusted: TLC; the harness's construction of SummaryState/WListManager/Context; integer summary values. "
               "The simulator's action loop is represented by the harness loop (msim's loop is outside the anchors)."),
         technique="TLA+ reference vs transcription checked with TLC + trace validation of real evaluations and trigger steps",
+    ),
+    "C19": dict(
+        category="model_checking",
+        text=("DeckSyntax.tla: PrintDeck and the invariant PrintParse (Meaning(PrintDeck(d)) = d, print.parse.print = print) model-checked "
+              "over every text reachable by the layout rewrites.  Every TLC-generated text is parsed by the real Parser, the Deck "
+              "written with operator<<, parsed again and written again (harness/deckparse roundtrip); the two Decks are compared "
+              "entry by entry (integers, strings, defaulted flags exactly; doubles to the printed precision) and the two texts must "
+              "be identical."),
+        design_ref="DESIGN.md section 5, C19",
+        note=("Trusted: TLC; the renderer.  Decks come from parsing grammar texts (not built through the Deck API); double-slash-terminated "
+              "and table-collection keywords are not in the grammar."),
+        technique="TLC model checking of print/parse on the lexeme model + TLC-generated decks round-tripped through the real writer and parser",
     ),
     "C06": dict(
         category="model_checking",
